@@ -5,14 +5,17 @@ package world
 
 import (
 	"context"
+	"encoding/json"
 	"fmt"
 	"sort"
+	"strings"
 	"sync"
 	"time"
 
 	"github.com/go-logr/logr"
 	appsv1 "k8s.io/api/apps/v1"
 	corev1 "k8s.io/api/core/v1"
+	policyv1 "k8s.io/api/policy/v1"
 	storagev1 "k8s.io/api/storage/v1"
 	"k8s.io/apimachinery/pkg/api/meta"
 	"k8s.io/apimachinery/pkg/runtime"
@@ -379,4 +382,82 @@ func (i *Informers) DeliverR(kind, ns, name string) (bool, error) {
 		res, err = i.ds.Reconcile(i.w.Ctx, r)
 	}
 	return res.Requeue, err //nolint:staticcheck
+}
+
+// DigestAPI returns a canonical dump of every API object (including resourceVersions: any write changes it).
+func (w *World) DigestAPI() string {
+	lists := []client.ObjectList{&corev1.NodeList{}, &v1.NodeClaimList{}, &v1.NodePoolList{}, &corev1.PodList{}, &appsv1.DaemonSetList{},
+		&corev1.PersistentVolumeClaimList{}, &corev1.PersistentVolumeList{}, &storagev1.StorageClassList{}, &storagev1.CSINodeList{}, &storagev1.VolumeAttachmentList{}, &policyv1.PodDisruptionBudgetList{}}
+	var parts []string
+	for _, l := range lists {
+		if err := w.Raw.List(w.Ctx, l); err != nil {
+			parts = append(parts, fmt.Sprintf("%T: %v", l, err))
+			continue
+		}
+		items, _ := meta.ExtractList(l)
+		for _, it := range items {
+			b, _ := json.Marshal(it)
+			parts = append(parts, fmt.Sprintf("%T %s", it, b))
+		}
+	}
+	sort.Strings(parts)
+	return strings.Join(parts, "\n")
+}
+
+// DigestCatalog dumps the provider's instance types and offerings INCLUDING slice order, availability, prices and
+// reservation counts.
+func (w *World) DigestCatalog() string {
+	var sb strings.Builder
+	names := make([]string, 0, len(w.CP.Catalog))
+	for n := range w.CP.Catalog {
+		names = append(names, n)
+	}
+	sort.Strings(names)
+	for _, n := range names {
+		fmt.Fprintf(&sb, "catalog %q:\n", n)
+		for _, it := range w.CP.Catalog[n] {
+			reqs := make([]string, 0)
+			for _, r := range it.Requirements {
+				reqs = append(reqs, r.String())
+			}
+			sort.Strings(reqs)
+			fmt.Fprintf(&sb, " %s cap=%v reqs=%v\n", it.Name, resourceString(it.Capacity), reqs)
+			for _, o := range it.Offerings {
+				oreqs := make([]string, 0)
+				for _, r := range o.Requirements {
+					oreqs = append(oreqs, r.String())
+				}
+				sort.Strings(oreqs)
+				fmt.Fprintf(&sb, "   offering %v price=%v available=%v reservation=%d override=%v\n", oreqs, o.Price, o.Available, o.ReservationCapacity, resourceString(o.CapacityOverride))
+			}
+		}
+	}
+	return sb.String()
+}
+
+func resourceString(rl corev1.ResourceList) string {
+	keys := make([]string, 0, len(rl))
+	for k := range rl {
+		keys = append(keys, string(k))
+	}
+	sort.Strings(keys)
+	var parts []string
+	for _, k := range keys {
+		q := rl[corev1.ResourceName(k)]
+		parts = append(parts, k+"="+q.String())
+	}
+	return strings.Join(parts, ",")
+}
+
+// WriteCalls returns the logged calls that mutate the API or the provider.
+func (w *World) WriteCalls() []string {
+	var out []string
+	for _, c := range w.Client.Log {
+		switch c.Verb {
+		case "get", "list", "cp-get", "cp-list":
+		default:
+			out = append(out, c.String())
+		}
+	}
+	return out
 }
